@@ -2,6 +2,7 @@ package props
 
 import (
 	"fmt"
+	"github.com/remieven/ysgo/markup"
 	"github.com/remieven/ysgo/variable"
 	"strings"
 
@@ -165,8 +166,10 @@ var stmtFaults = []string{"unknown-node-by-name", "unknown-node-by-expression", 
 func (c06) Thresholds(tier string) map[string]int64 {
 	th := map[string]int64{
 		"faults-reached": 1800,
-		"host-configuration:zero-value-default-store":            600,
-		"host-configuration:nil-function-and-command-registered": 600,
+		"host-configuration:zero-value-default-store":             600,
+		"host-configuration:nil-function-and-command-registered":  600,
+		"host-configuration:marked-up-lines-of-every-marker-form": 600,
+		"host-configuration:broken-markup-reached-three-times":    600,
 		"faults-not-reached":                 100,
 		"post-error-next-calls":              60000,
 		"long-non-yielding-run":              1,
@@ -306,6 +309,86 @@ func (p c06) hostConfigurations(c *core.Ctx) {
 		}
 	}
 	c.Feature("host-configuration:nil-function-and-command-registered")
+
+	// ---- marked-up lines of every marker form (replacement markers written as open / close pairs too), literal
+	// and produced by an inline expression: the element's text is what the markup parser gives for that text on
+	// a parser value of its own; never a panic
+	forms := []string{
+		"[select value=a a=\"x\" b=\"y\"]fallback[/select] end", "[plural value=2 one=\"% cat\" other=\"% cats\"]n[/plural] end",
+		"[ordinal value=3 one=\"%st\" two=\"%nd\" few=\"%rd\" other=\"%th\"]x[/ordinal] end", "[nomarkup][b]raw[/b][/nomarkup] end",
+		"[select value=b a=\"x\" b=\"y\" /] end", "[b]bold [i]both[/b] it[/i] end", "Mae: [wave]hi[/wave][/] end", "[Select value=a a=\"x\"]f[/Select] end",
+	}
+	form := forms[r.Intn(len(forms))]
+	script = "title: Start\n---\nA " + form + "\nB {$m}\n-> C " + form + "\n-> D {$m}\n===\n"
+	st := mon.NewRecStorer()
+	st.HostSet("m", model.S(form))
+	rr, err, pan = mon.Create(st, "", []string{script})
+	if err != nil || pan != "" {
+		c.Violate("a script with marked-up lines failed to load", map[string]any{"readers": []string{script}, "error": fmt.Sprint(err), "panic": pan})
+		return
+	}
+	lp := &markup.LineParser{}
+	expect := func(text string) (txt string, ok bool) {
+		defer func() {
+			if recover() != nil {
+				txt, ok = "", false // C15 judges the markup parser on its own; here it only serves as the expectation
+			}
+		}()
+		res, err := lp.ParseMarkup(text)
+		if err != nil || res == nil {
+			return "", false
+		}
+		return res.Text, true
+	}
+	for i, raw := range []string{"A " + form, "B " + form} {
+		o := rr.Next(0)
+		want, ok := expect(raw)
+		switch {
+		case o.Kind == mon.KPanic:
+			c.Violate("Next panicked on a marked-up line of a valid script", map[string]any{"readers": []string{script}, "step": i, "observed": o.String()})
+			return
+		case ok && (o.Kind != mon.KLine || o.Text != want), !ok && o.Kind != mon.KErr:
+			c.Violate("a marked-up line of a valid script is not what the markup parser gives for its text", map[string]any{"readers": []string{script}, "step": i, "markup_parser_text": want, "markup_parser_ok": ok, "observed": o.String()})
+			return
+		}
+	}
+	if o := rr.Next(0); o.Kind == mon.KPanic {
+		c.Violate("Next panicked on marked-up options of a valid script", map[string]any{"readers": []string{script}, "observed": o.String()})
+		return
+	} else if wc, okc := expect("C " + form); okc && (o.Kind != mon.KOptions || len(o.Opts) != 2 || o.Opts[0].Text != wc || o.Opts[1].Text != "D"+wc[1:]) {
+		c.Violate("marked-up options of a valid script are not what the markup parser gives for their texts", map[string]any{"readers": []string{script}, "markup_parser_text": wc, "observed": o.String()})
+		return
+	}
+	c.Feature("host-configuration:marked-up-lines-of-every-marker-form")
+
+	// ---- a line whose markup is broken is an error EVERY time it is reached (the host restores the node entry in
+	// between, which says where the dialogue resumes - an error does not)
+	broken := r.Pick("oops [b", "x [/b] y", "[select value=z a=\"1\"/] s", "[plural value=many one=\"a\"/]", "[a]x[/b]", "-> opt [wave")
+	script = "title: Start\n---\n" + broken + "\nafter\n===\n"
+	if strings.HasPrefix(broken, "->") {
+		script = "title: Start\n---\n" + broken + "\n    body\nafter\n===\n"
+	}
+	rr, err, pan = mon.Create(nil, "", []string{script})
+	if err != nil || pan != "" {
+		c.Violate("a script with a line of broken markup failed to load", map[string]any{"readers": []string{script}, "error": fmt.Sprint(err), "panic": pan})
+		return
+	}
+	for visit := 1; visit <= 3; visit++ {
+		o := rr.Next(0)
+		if o.Kind != mon.KErr {
+			what := "a line whose markup is broken did not surface as an error"
+			if o.Kind == mon.KPanic {
+				what = "Next panicked on a line whose markup is broken"
+			}
+			c.Violate(fmt.Sprintf("%s (visit %d of the same line by the same runner)", what, visit), map[string]any{"readers": []string{script}, "observed": o.String()})
+			return
+		}
+		if err := rr.RestoreAt(rr.DR.Snapshot()); err != nil {
+			c.Violate("restoring a runner from its own snapshot failed: "+err.Error(), map[string]any{"readers": []string{script}})
+			return
+		}
+	}
+	c.Feature("host-configuration:broken-markup-reached-three-times")
 }
 
 func (p c06) Run(c *core.Ctx) {
